@@ -5,9 +5,11 @@ import os
 NSHARDS = min(16, os.cpu_count() or 4)
 
 
-def generic(profile="verif", extra_sets=(), timeout_quick=1500, timeout_thorough=4 * 3600, nshards=None, thorough_profiles=()):
+def generic(profile="verif", extra_sets=(), timeout_quick=1500, timeout_thorough=4 * 3600, nshards=None, thorough_profiles=(), env=None, pre=None):
     def run(ctx):
         ctx["build"](profile)
+        if pre:
+            pre(ctx)
         n = nshards or NSHARDS
         sets = list(extra_sets)
         if ctx["replay"]:
@@ -18,23 +20,38 @@ def generic(profile="verif", extra_sets=(), timeout_quick=1500, timeout_thorough
                    "--out", outp, "--replay", os.path.abspath(ctx["replay"]), "--replay-dir", os.path.join(ctx["out"], "replays")]
             for kv in sets:
                 cmd += ["--set", kv]
-            p = subprocess.run(cmd, cwd=ctx["root"])
+            p = subprocess.run(cmd, cwd=ctx["root"], env=dict(os.environ, **(env or {})))
             if p.returncode == 0 and os.path.exists(outp):
                 return [json.load(open(outp))], [], 0
             return [], [{"shard": 0, "rc": p.returncode, "current": None, "log_tail": ""}], 0
         to = timeout_thorough if ctx["tier"] == "thorough" else timeout_quick
         shards, crashes, timeouts = ctx["run_shards"](ctx["pid"], ctx["tier"], ctx["seed"], ctx["rundir"], n,
-                                                      ctx["vh_path"](profile), sets, None, to)
+                                                      ctx["vh_path"](profile), sets, env, to)
         if ctx["tier"] == "thorough":
             for prof in thorough_profiles:
                 ctx["build"](prof)
                 s2, c2, t2 = ctx["run_shards"](ctx["pid"], ctx["tier"], ctx["seed"] + 7919, ctx["rundir"], n,
-                                               ctx["vh_path"](prof), sets + ["build=" + prof], None, to, tag="-" + prof)
+                                               ctx["vh_path"](prof), sets + ["build=" + prof], env, to, tag="-" + prof)
                 shards += s2
                 crashes += c2
                 timeouts += t2
         return shards, crashes, timeouts
     return run
+
+
+ROOT = os.path.dirname(os.path.dirname(os.path.abspath(__file__)))
+SHIM = os.path.join(ROOT, "shim", "ioshim.so")
+SHIM_ENV = {"LD_PRELOAD": SHIM, "VERIF_DBPATH": "/dev/shm/vh-"}
+
+
+def build_shim(ctx):
+    import subprocess, sys
+    src = os.path.join(ROOT, "shim", "ioshim.c")
+    if (not os.path.exists(SHIM)) or os.path.getmtime(SHIM) < os.path.getmtime(src):
+        p = subprocess.run(["gcc", "-O2", "-fPIC", "-shared", "-o", SHIM, src, "-ldl", "-lpthread"])
+        if p.returncode != 0:
+            ctx["log"]("HARNESS-ERROR: cannot build the I/O shim")
+            sys.exit(2)
 
 
 HISTORY_RULE = (
@@ -129,5 +146,35 @@ PROPS = {
         "floors": {"any": {"rollbacks_checked(file bytes + shared state)": 50, "twin_runs": 20, "read_only_mutator_calls": 500,
                            "error_returning_calls_followed_by_full_verification": 50}},
         "assumptions": ["physical page ids / high-water mark are not compared between twins (HashMap iteration order makes allocation order vary between identical runs)"],
+    },
+    "C12": {
+        "level": "fault_enumeration",
+        "rule": "faults = mutations of ONE header page of files closed cleanly after 0..6 commits (newest header alternates between the slots): every "
+                "offset x all 255 other byte values in the first 128 bytes (thorough: the whole page, also page size 4096), three values per offset in "
+                "the rest, page zeroed / all ones / first sector zeroed, seeded 2-24 byte overwrites, and prefixes of the other header's record (torn "
+                "header write). Each mutated copy is opened through the public API and read in full; if the mutation touches a semantic byte (type byte, "
+                "the nine fields, the checksum) the contents must equal the state of the INTACT header, otherwise one of the two recorded states; every "
+                "16th open is followed by a commit and DB::check. exhaustive=true when every offset got all 255 values. "
+                "non-trivial = mutation touching a semantic byte.",
+        "run": generic(thorough_profiles=()),
+        "floors": {"any": {"outcome:fell-back-to-previous": 1000, "outcome:kept-newest": 1000, "region:type-byte": 100, "region:checksum": 500}},
+        "assumptions": ["FNV-1a is a bijection per absorbed byte, so every single-byte change of a hashed field is detectable; 2^-64 accidental matches of multi-byte overwrites are ignored"],
+    },
+    "C02": {
+        "level": "fault_enumeration",
+        "rule": "faults = crash points of recorded executions. Reuse-heavy histories (small and 20-60 op transactions, bucket deletes, page reuse, "
+                "one growth workload in five) run under the LD_PRELOAD shim, which records every write (with bytes, offset, file size) and sync on the "
+                "database fd. For EVERY commit: (a) process kill = every prefix of the write sequence, the last write also cut at 512-byte boundaries; "
+                "(b) power loss = at every sync, every subset of the writes pending since the previous sync (exhaustive up to 10 writes, else all "
+                "single-missing / single-present / all-but-header + seeded subsets), sector-torn variants (prefix, suffix, random sectors) of one write, "
+                "and the header write torn at 8-byte-word granularity (quick: all prefixes, suffixes + 40 seeded masks; thorough: all 8192 masks), with "
+                "and without the other pending writes. Every distinct image is parsed by the independent checker (must be sound and equal the previous "
+                "or the new state; the image holding all writes of an acknowledged commit must show the new state), reopened through the public API "
+                "(same contents, DB::check), and every 8th takes one more commit. distinct/non-trivial = distinct image bytes.",
+        "run": generic(thorough_profiles=(), env=SHIM_ENV, pre=build_shim),
+        "floors": {"any": {"commits_analysed": 20, "crash_images_tested(distinct bytes)": 2000, "images_showing_previous_state": 200,
+                           "images_showing_new_state": 50, "header_word_torn_images_generated": 500, "sync_events_recorded": 20}},
+        "assumptions": ["file size metadata is durable at the point it was observed", "a sync makes every earlier write durable; writes are torn at 512-byte sectors, the header record at 8-byte words",
+                        "fallocate is invisible to the shim (raw system call); its effect is taken from the recorded file size"],
     },
 }
